@@ -24,107 +24,107 @@ let text_of_hex (s : string) : K.z list =
 
 (* ---- rendering ---- *)
 
-let buf_range b k (r : K.range) =
+let buf_range b k (r : K.ScanM.range) =
   Buffer.add_char b '(';
   Buffer.add_string b k;
   Buffer.add_char b ' ';
-  Buffer.add_string b (string_of_int (int_of_z r.K.r_start));
+  Buffer.add_string b (string_of_int (int_of_z r.K.ScanM.r_start));
   Buffer.add_char b ' ';
-  Buffer.add_string b (string_of_int (int_of_z r.K.r_end))
+  Buffer.add_string b (string_of_int (int_of_z r.K.ScanM.r_end))
 
 let leaf b k r = Buffer.add_char b ' '; buf_range b k r; Buffer.add_char b ')'
 
-let account b (a : K.account) =
+let account b (a : K.SynM.account) =
   Buffer.add_char b ' ';
-  buf_range b "a" a.K.acc_range;
-  Buffer.add_string b (if a.K.acc_macro then " 1)" else " 0)")
+  buf_range b "a" a.K.SynM.acc_range;
+  Buffer.add_string b (if a.K.SynM.acc_macro then " 1)" else " 0)")
 
-let quoted b (q : K.quoted) =
+let quoted b (q : K.SynM.quoted) =
   Buffer.add_char b ' ';
-  buf_range b "q" q.K.qs_range;
-  leaf b "c" q.K.qs_content;
+  buf_range b "q" q.K.SynM.qs_range;
+  leaf b "c" q.K.SynM.qs_content;
   Buffer.add_char b ')'
 
-let addons b (a : K.addons) =
+let addons b (a : K.SynM.addons) =
   Buffer.add_char b ' ';
-  buf_range b "ad" a.K.ad_range;
+  buf_range b "ad" a.K.SynM.ad_range;
   Buffer.add_char b ' ';
-  buf_range b "pf" a.K.ad_perf.K.pf_range;
-  List.iter (leaf b "cm") a.K.ad_perf.K.pf_targets;
+  buf_range b "pf" a.K.SynM.ad_perf.K.SynM.pf_range;
+  List.iter (leaf b "cm") a.K.SynM.ad_perf.K.SynM.pf_targets;
   Buffer.add_char b ')';
-  let c = a.K.ad_accrual in
+  let c = a.K.SynM.ad_accrual in
   Buffer.add_char b ' ';
-  buf_range b "ac" c.K.ac_range;
-  leaf b "iv" c.K.ac_interval;
-  leaf b "dt" c.K.ac_start;
-  leaf b "dt" c.K.ac_end;
-  account b c.K.ac_account;
+  buf_range b "ac" c.K.SynM.ac_range;
+  leaf b "iv" c.K.SynM.ac_interval;
+  leaf b "dt" c.K.SynM.ac_start;
+  leaf b "dt" c.K.SynM.ac_end;
+  account b c.K.SynM.ac_account;
   Buffer.add_string b "))"
 
-let body b (x : K.dir_body) =
+let body b (x : K.SynM.dir_body) =
   Buffer.add_char b ' ';
   (match x with
-   | K.BTrx t ->
-     buf_range b "T" t.K.tx_range;
-     leaf b "dt" t.K.tx_date;
-     quoted b t.K.tx_desc;
-     addons b t.K.tx_addons;
-     List.iter (fun (k : K.booking) ->
+   | K.SynM.BTrx t ->
+     buf_range b "T" t.K.SynM.tx_range;
+     leaf b "dt" t.K.SynM.tx_date;
+     quoted b t.K.SynM.tx_desc;
+     addons b t.K.SynM.tx_addons;
+     List.iter (fun (k : K.SynM.booking) ->
        Buffer.add_char b ' ';
-       buf_range b "b" k.K.bk_range;
-       account b k.K.bk_credit;
-       account b k.K.bk_debit;
-       leaf b "n" k.K.bk_quantity;
-       leaf b "cm" k.K.bk_commodity;
-       Buffer.add_char b ')') t.K.tx_bookings
-   | K.BOpen o -> buf_range b "O" o.K.op_range; leaf b "dt" o.K.op_date; account b o.K.op_account
-   | K.BClose o -> buf_range b "C" o.K.cl_range; leaf b "dt" o.K.cl_date; account b o.K.cl_account
-   | K.BAssertion a ->
-     buf_range b "A" a.K.as_range;
-     leaf b "dt" a.K.as_date;
-     List.iter (fun (k : K.balance) ->
+       buf_range b "b" k.K.SynM.bk_range;
+       account b k.K.SynM.bk_credit;
+       account b k.K.SynM.bk_debit;
+       leaf b "n" k.K.SynM.bk_quantity;
+       leaf b "cm" k.K.SynM.bk_commodity;
+       Buffer.add_char b ')') t.K.SynM.tx_bookings
+   | K.SynM.BOpen o -> buf_range b "O" o.K.SynM.op_range; leaf b "dt" o.K.SynM.op_date; account b o.K.SynM.op_account
+   | K.SynM.BClose o -> buf_range b "C" o.K.SynM.cl_range; leaf b "dt" o.K.SynM.cl_date; account b o.K.SynM.cl_account
+   | K.SynM.BAssertion a ->
+     buf_range b "A" a.K.SynM.as_range;
+     leaf b "dt" a.K.SynM.as_date;
+     List.iter (fun (k : K.SynM.balance) ->
        Buffer.add_char b ' ';
-       buf_range b "bl" k.K.bl_range;
-       account b k.K.bl_account;
-       leaf b "n" k.K.bl_quantity;
-       leaf b "cm" k.K.bl_commodity;
-       Buffer.add_char b ')') a.K.as_balances
-   | K.BPrice p ->
-     buf_range b "P" p.K.pr_range;
-     leaf b "dt" p.K.pr_date;
-     leaf b "cm" p.K.pr_commodity;
-     leaf b "n" p.K.pr_price;
-     leaf b "cm" p.K.pr_target
-   | K.BInclude i -> buf_range b "I" i.K.in_range; quoted b i.K.in_path
-   | K.BNone -> Buffer.add_string b "(X");
+       buf_range b "bl" k.K.SynM.bl_range;
+       account b k.K.SynM.bl_account;
+       leaf b "n" k.K.SynM.bl_quantity;
+       leaf b "cm" k.K.SynM.bl_commodity;
+       Buffer.add_char b ')') a.K.SynM.as_balances
+   | K.SynM.BPrice p ->
+     buf_range b "P" p.K.SynM.pr_range;
+     leaf b "dt" p.K.SynM.pr_date;
+     leaf b "cm" p.K.SynM.pr_commodity;
+     leaf b "n" p.K.SynM.pr_price;
+     leaf b "cm" p.K.SynM.pr_target
+   | K.SynM.BInclude i -> buf_range b "I" i.K.SynM.in_range; quoted b i.K.SynM.in_path
+   | K.SynM.BNone -> Buffer.add_string b "(X");
   Buffer.add_char b ')'
 
-let render_file (f : K.file) : string =
+let render_file (f : K.SynM.file) : string =
   let b = Buffer.create 4096 in
-  buf_range b "F" f.K.f_range;
-  List.iter (fun (d : K.directive) ->
+  buf_range b "F" f.K.SynM.f_range;
+  List.iter (fun (d : K.SynM.directive) ->
     Buffer.add_char b ' ';
-    buf_range b "D" d.K.d_range;
-    body b d.K.d_body;
-    Buffer.add_char b ')') f.K.f_directives;
+    buf_range b "D" d.K.SynM.d_range;
+    body b d.K.SynM.d_body;
+    Buffer.add_char b ')') f.K.SynM.f_directives;
   Buffer.add_char b ')';
   Buffer.contents b
 
 let desc_code = function
-  | K.DNone -> "" | K.DComment -> "comment" | K.DFile -> "file" | K.DDir -> "dir" | K.DIncl -> "incl"
-  | K.DOpen -> "open" | K.DClose -> "close" | K.DBal -> "bal" | K.DBalSub -> "balsub"
-  | K.DComm -> "comm" | K.DDec -> "dec" | K.DAcc -> "acc" | K.DBook -> "book" | K.DDate -> "date"
-  | K.DQs -> "qs" | K.DTrx -> "trx" | K.DAddons -> "addons" | K.DPerf -> "perf"
-  | K.DInterval -> "interval" | K.DRest -> "rest"
+  | K.ScanM.DNone -> "" | K.ScanM.DComment -> "comment" | K.ScanM.DFile -> "file" | K.ScanM.DDir -> "dir" | K.ScanM.DIncl -> "incl"
+  | K.ScanM.DOpen -> "open" | K.ScanM.DClose -> "close" | K.ScanM.DBal -> "bal" | K.ScanM.DBalSub -> "balsub"
+  | K.ScanM.DComm -> "comm" | K.ScanM.DDec -> "dec" | K.ScanM.DAcc -> "acc" | K.ScanM.DBook -> "book" | K.ScanM.DDate -> "date"
+  | K.ScanM.DQs -> "qs" | K.ScanM.DTrx -> "trx" | K.ScanM.DAddons -> "addons" | K.ScanM.DPerf -> "perf"
+  | K.ScanM.DInterval -> "interval" | K.ScanM.DRest -> "rest"
 
 let kind_code = function
-  | K.KEof -> "eof" | K.KUtf8 -> "utf8" | K.KNext -> "next" | K.KEofWant -> "eofwant" | K.KChar -> "char"
-  | K.KStr -> "str" | K.KAlt -> "alt" | K.KReadN -> "readn" | K.KDup -> "dup" | K.KEmpty -> "empty"
-  | K.KOther -> "other" | K.KWhile d -> "w:" ^ desc_code d
+  | K.ScanM.KEof -> "eof" | K.ScanM.KUtf8 -> "utf8" | K.ScanM.KNext -> "next" | K.ScanM.KEofWant -> "eofwant" | K.ScanM.KChar -> "char"
+  | K.ScanM.KStr -> "str" | K.ScanM.KAlt -> "alt" | K.ScanM.KReadN -> "readn" | K.ScanM.KDup -> "dup" | K.ScanM.KEmpty -> "empty"
+  | K.ScanM.KOther -> "other" | K.ScanM.KWhile d -> "w:" ^ desc_code d
 
-let render_errs (es : K.err list) : string =
-  "ERR" ^ String.concat "" (List.map (fun (e : K.err) ->
-    Printf.sprintf " (%s %d %d)" (kind_code e.K.er_kind) (int_of_z e.K.er_start) (int_of_z e.K.er_end)) es)
+let render_errs (es : K.ScanM.err list) : string =
+  "ERR" ^ String.concat "" (List.map (fun (e : K.ScanM.err) ->
+    Printf.sprintf " (%s %d %d)" (kind_code e.K.ScanM.er_kind) (int_of_z e.K.ScanM.er_start) (int_of_z e.K.ScanM.er_end)) es)
 
 (* ---- reading the observed rendering back ---- *)
 
@@ -158,57 +158,57 @@ let parse_sx (s : string) : sx list =
   r
 
 let zi s = z_of_int (int_of_string s)
-let rng s e : K.range = { K.r_start = zi s; K.r_end = zi e }
+let rng s e : K.ScanM.range = { K.ScanM.r_start = zi s; K.ScanM.r_end = zi e }
 
 let rd_leaf k = function
   | L [A k'; A s; A e] when k = k' -> rng s e
   | _ -> failwith ("leaf " ^ k)
 let rd_account = function
-  | L [A "a"; A s; A e; A m] -> { K.acc_range = rng s e; K.acc_macro = (m = "1") }
+  | L [A "a"; A s; A e; A m] -> { K.SynM.acc_range = rng s e; K.SynM.acc_macro = (m = "1") }
   | _ -> failwith "account"
 let rd_quoted = function
-  | L [A "q"; A s; A e; c] -> { K.qs_range = rng s e; K.qs_content = rd_leaf "c" c }
+  | L [A "q"; A s; A e; c] -> { K.SynM.qs_range = rng s e; K.SynM.qs_content = rd_leaf "c" c }
   | _ -> failwith "quoted"
 let rd_addons = function
   | L [A "ad"; A s; A e; L (A "pf" :: A ps :: A pe :: ts); L [A "ac"; A cs; A ce; iv; d1; d2; acc]] ->
-    { K.ad_range = rng s e;
-      K.ad_perf = { K.pf_range = rng ps pe; K.pf_targets = List.map (rd_leaf "cm") ts };
-      K.ad_accrual = { K.ac_range = rng cs ce; K.ac_interval = rd_leaf "iv" iv; K.ac_start = rd_leaf "dt" d1;
-                       K.ac_end = rd_leaf "dt" d2; K.ac_account = rd_account acc } }
+    { K.SynM.ad_range = rng s e;
+      K.SynM.ad_perf = { K.SynM.pf_range = rng ps pe; K.SynM.pf_targets = List.map (rd_leaf "cm") ts };
+      K.SynM.ad_accrual = { K.SynM.ac_range = rng cs ce; K.SynM.ac_interval = rd_leaf "iv" iv; K.SynM.ac_start = rd_leaf "dt" d1;
+                       K.SynM.ac_end = rd_leaf "dt" d2; K.SynM.ac_account = rd_account acc } }
   | _ -> failwith "addons"
 let rd_booking = function
   | L [A "b"; A s; A e; c; d; q; m] ->
-    { K.bk_range = rng s e; K.bk_credit = rd_account c; K.bk_debit = rd_account d;
-      K.bk_quantity = rd_leaf "n" q; K.bk_commodity = rd_leaf "cm" m }
+    { K.SynM.bk_range = rng s e; K.SynM.bk_credit = rd_account c; K.SynM.bk_debit = rd_account d;
+      K.SynM.bk_quantity = rd_leaf "n" q; K.SynM.bk_commodity = rd_leaf "cm" m }
   | _ -> failwith "booking"
 let rd_balance = function
   | L [A "bl"; A s; A e; a; q; m] ->
-    { K.bl_range = rng s e; K.bl_account = rd_account a; K.bl_quantity = rd_leaf "n" q;
-      K.bl_commodity = rd_leaf "cm" m }
+    { K.SynM.bl_range = rng s e; K.SynM.bl_account = rd_account a; K.SynM.bl_quantity = rd_leaf "n" q;
+      K.SynM.bl_commodity = rd_leaf "cm" m }
   | _ -> failwith "balance"
 let rd_body = function
   | L (A "T" :: A s :: A e :: dt :: q :: ad :: bs) ->
-    K.BTrx { K.tx_range = rng s e; K.tx_date = rd_leaf "dt" dt; K.tx_desc = rd_quoted q;
-             K.tx_bookings = List.map rd_booking bs; K.tx_addons = rd_addons ad }
-  | L [A "O"; A s; A e; dt; a] -> K.BOpen { K.op_range = rng s e; K.op_date = rd_leaf "dt" dt; K.op_account = rd_account a }
-  | L [A "C"; A s; A e; dt; a] -> K.BClose { K.cl_range = rng s e; K.cl_date = rd_leaf "dt" dt; K.cl_account = rd_account a }
+    K.SynM.BTrx { K.SynM.tx_range = rng s e; K.SynM.tx_date = rd_leaf "dt" dt; K.SynM.tx_desc = rd_quoted q;
+             K.SynM.tx_bookings = List.map rd_booking bs; K.SynM.tx_addons = rd_addons ad }
+  | L [A "O"; A s; A e; dt; a] -> K.SynM.BOpen { K.SynM.op_range = rng s e; K.SynM.op_date = rd_leaf "dt" dt; K.SynM.op_account = rd_account a }
+  | L [A "C"; A s; A e; dt; a] -> K.SynM.BClose { K.SynM.cl_range = rng s e; K.SynM.cl_date = rd_leaf "dt" dt; K.SynM.cl_account = rd_account a }
   | L (A "A" :: A s :: A e :: dt :: bs) ->
-    K.BAssertion { K.as_range = rng s e; K.as_date = rd_leaf "dt" dt; K.as_balances = List.map rd_balance bs }
+    K.SynM.BAssertion { K.SynM.as_range = rng s e; K.SynM.as_date = rd_leaf "dt" dt; K.SynM.as_balances = List.map rd_balance bs }
   | L [A "P"; A s; A e; dt; c; p; t] ->
-    K.BPrice { K.pr_range = rng s e; K.pr_date = rd_leaf "dt" dt; K.pr_commodity = rd_leaf "cm" c;
-               K.pr_target = rd_leaf "cm" t; K.pr_price = rd_leaf "n" p }
-  | L [A "I"; A s; A e; q] -> K.BInclude { K.in_range = rng s e; K.in_path = rd_quoted q }
-  | L [A "X"] -> K.BNone
+    K.SynM.BPrice { K.SynM.pr_range = rng s e; K.SynM.pr_date = rd_leaf "dt" dt; K.SynM.pr_commodity = rd_leaf "cm" c;
+               K.SynM.pr_target = rd_leaf "cm" t; K.SynM.pr_price = rd_leaf "n" p }
+  | L [A "I"; A s; A e; q] -> K.SynM.BInclude { K.SynM.in_range = rng s e; K.SynM.in_path = rd_quoted q }
+  | L [A "X"] -> K.SynM.BNone
   | _ -> failwith "body"
 let rd_directive = function
-  | L [A "D"; A s; A e; b] -> { K.d_range = rng s e; K.d_body = rd_body b }
+  | L [A "D"; A s; A e; b] -> { K.SynM.d_range = rng s e; K.SynM.d_body = rd_body b }
   | _ -> failwith "directive"
 let rd_file = function
-  | [L (A "F" :: A s :: A e :: ds)] -> { K.f_range = rng s e; K.f_directives = List.map rd_directive ds }
+  | [L (A "F" :: A s :: A e :: ds)] -> { K.SynM.f_range = rng s e; K.SynM.f_directives = List.map rd_directive ds }
   | _ -> failwith "file"
-let rd_errs (xs : sx list) : K.err list =
+let rd_errs (xs : sx list) : K.ScanM.err list =
   List.map (function
-    | L [A _; A s; A e] -> { K.er_kind = K.KEmpty; K.er_start = zi s; K.er_end = zi e }
+    | L [A _; A s; A e] -> { K.ScanM.er_kind = K.ScanM.KEmpty; K.ScanM.er_start = zi s; K.ScanM.er_end = zi e }
     | _ -> failwith "err") xs
 
 let starts_with p s = String.length s >= String.length p && String.sub s 0 (String.length p) = p
@@ -217,10 +217,10 @@ let () =
   register "C07.parse" (fun inp obs ->
     let text = text_of_hex inp in
     let model =
-      match K.parse_text K.is_letter K.is_digit text with
-      | K.ParseOk f -> render_file f
-      | K.ParseErr es -> render_errs es
-      | K.ParseFuel -> "OUTOFFUEL" in
+      match K.SynM.parse_text K.UnicodeM.is_letter K.UnicodeM.is_digit text with
+      | K.SynM.ParseOk f -> render_file f
+      | K.SynM.ParseErr es -> render_errs es
+      | K.SynM.ParseFuel -> "OUTOFFUEL" in
     let spec =
       if starts_with "PANIC" obs then "FAIL:panic"
       else if starts_with "ERR" obs then begin
@@ -242,6 +242,6 @@ let () =
       let b = Buffer.create (hi - lo + 1) in
       for r = lo to hi do
         let z = z_of_int r in
-        Buffer.add_char b (if K.is_letter z then 'L' else if K.is_digit z then 'D' else '-')
+        Buffer.add_char b (if K.UnicodeM.is_letter z then 'L' else if K.UnicodeM.is_digit z then 'D' else '-')
       done;
       (Buffer.contents b, "ok")))
